@@ -14,9 +14,9 @@ Comparison classes (DESIGN.md 3.3)
   T  line/adsr/attack (float slope), tables, sinusoid, karplus_strong, and the
      few resample samples the code itself turns into floats: |err| <= 1e-9*scale
 
-Inputs the statement is silent about are not generated: line/fades/adsr
-segments with dur == finish or length parameter 0 (division by zero in the
-closed form itself), negative durations, adsr whose a+d+r exceeds dur, empty
+Inputs the statement is silent about are not generated: fades/adsr segments
+with a length parameter 0 where the closed form itself divides by zero (a line
+of a single sample - dur == finish == 1 - is just "begin"), negative durations, adsr whose a+d+r exceeds dur, empty
 sustain stream for attack, modulo 0, resample steps <= 0 or non-dyadic float
 steps (window ties would be decided by rounding), finite step streams for
 resample, TableLookup.__getitem__ with negative indices, karplus_strong with a
@@ -171,10 +171,15 @@ def run_line(ctx, case):
     s = line(dur)
   n = round_half_up(dur)
   den = frac(dur) - (1 if finish else 0)
-  slope = (frac(end) - frac(begin)) / den if n else Fraction(0)  # no samples
+  # (the slope is multiplied by the sample index: it is not needed when there
+  # is no sample, nor for the single sample "begin" of line(1, .., finish=True),
+  # where the closed form reads begin + 0 * (end - begin) / 0)
+  slope = (frac(end) - frac(begin)) / den if n and den else Fraction(0)
   want = seg(n, frac(begin), slope)
   if dur == 0:
     ctx.count("line:zero-duration")
+  if den == 0 and n == 1:
+    ctx.count("line:one-sample-with-finish")
   got, exc, hit = drain(s, n + 3)
   scale = 1 + abs(frac(begin)) + abs(frac(end))
   ctx.count("line:finish" if finish else "line:nofinish")
@@ -915,9 +920,11 @@ def gen_line(rng):
     finish = False if style == "nofinish" else rng.random() < 0.5
   while True:
     dur = r_dur(rng, rng.choice([5, 40, 300]))
-    # closed form defined - or never evaluated because there is no sample
-    if frac(dur) != (1 if finish else 0) or round_half_up(dur) == 0:
+    # closed form defined - or not needed: no sample, or only sample 0
+    if frac(dur) != (1 if finish else 0) or round_half_up(dur) <= 1:
       break
+  if finish and rng.random() < 0.08:
+    dur = rng.choice([1, 1., Fraction(1)])      # one sample: "begin" itself
   return ("line", dur, begin, end, finish, style)
 
 
@@ -1317,6 +1324,7 @@ def finish(ctx):
   ctx.need("adsr:zero-length-segment", 10)
   ctx.need("attack:zero-length-segment", 5)
   ctx.need("line:finish", 30)
+  ctx.need("line:one-sample-with-finish", 5)
   ctx.need("line:nofinish", 30)
   ctx.need("line:fractional_dur", 20)
   ctx.need("line:samples", 1000)
